@@ -38,6 +38,8 @@ pub fn check_fields(d: &NaiveDate, z: i64) -> Result<(), String> {
     ensure_eq!(w.week(), f.iso_week, "iso week of day {z}");
     ensure_eq!(w.week0(), f.iso_week - 1, "iso week0 of day {z}");
     ensure_eq!(d.num_days_from_ce() as i64, f.ce, "num_days_from_ce of day {z}");
+    // the provided trait method, as the date-time wrapper inherits it
+    ensure_eq!(d.and_time(chrono::NaiveTime::MIN).num_days_from_ce() as i64, f.ce, "NaiveDateTime::num_days_from_ce of day {z}");
     ensure_eq!(d.leap_year(), f.leap, "leap_year of day {z}");
     Ok(())
 }
@@ -190,9 +192,12 @@ impl SubCheck for Ymd {
             ensure_eq!(got, None, "from_ymd_opt({y},{m},{d}) denotes no representable date");
         }
         // the panicking (deprecated) spelling: a date for the same tuples, a panic for the others
-        #[allow(deprecated)]
-        let pan = crate::guard::guard(|| NaiveDate::from_ymd(y, m, d));
-        ensure_eq!(pan.ok(), got, "from_ymd({y},{m},{d}) vs from_ymd_opt (panic <-> None)");
+        // (a panic costs microseconds: refused tuples take this route once in 64)
+        if got.is_some() || (y as u32 ^ m.wrapping_mul(31) ^ d.wrapping_mul(131)) % 64 == 0 {
+            #[allow(deprecated)]
+            let pan = crate::guard::guard(|| NaiveDate::from_ymd(y, m, d));
+            ensure_eq!(pan.ok(), got, "from_ymd({y},{m},{d}) vs from_ymd_opt (panic <-> None)");
+        }
         Ok(())
     }
 }
@@ -215,7 +220,7 @@ impl SubCheck for Yo {
         let day = cal::day_from_yo(yy, o as i64);
         let got = call("from_yo_opt", || NaiveDate::from_yo_opt(y, o))?;
         #[allow(deprecated)]
-        {
+        if got.is_some() || (y as u32 ^ o.wrapping_mul(31)) % 64 == 0 {
             let pan = crate::guard::guard(|| NaiveDate::from_yo(y, o));
             ensure_eq!(pan.ok(), got, "from_yo({y},{o}) vs from_yo_opt (panic <-> None)");
         }
@@ -258,7 +263,7 @@ impl SubCheck for IsoYwd {
         let day = if yy >= cal::MIN_YEAR - 1 && yy <= cal::MAX_YEAR + 1 { cal::day_from_isoywd(yy, w as i64, wd as u32) } else { None };
         let got = call("from_isoywd_opt", || NaiveDate::from_isoywd_opt(y, w, WD[wd as usize]))?;
         #[allow(deprecated)]
-        {
+        if got.is_some() || (y as u32 ^ w.wrapping_mul(31) ^ wd as u32) % 64 == 0 {
             let pan = crate::guard::guard(|| NaiveDate::from_isoywd(y, w, WD[wd as usize]));
             ensure_eq!(pan.ok(), got, "from_isoywd({y},{w},{wd}) vs from_isoywd_opt (panic <-> None)");
         }
@@ -311,7 +316,7 @@ impl SubCheck for Ce {
         let z = n as i64 - cal::CE_SHIFT;
         let got = call("from_num_days_from_ce_opt", || NaiveDate::from_num_days_from_ce_opt(n))?;
         #[allow(deprecated)]
-        {
+        if got.is_some() || (n as u32).wrapping_mul(2_654_435_761) >> 26 == 0 {
             let pan = crate::guard::guard(|| NaiveDate::from_num_days_from_ce(n));
             ensure_eq!(pan.ok(), got, "from_num_days_from_ce({n}) vs from_num_days_from_ce_opt (panic <-> None)");
         }
